@@ -35,7 +35,7 @@ def render(cat, f, content, star=None):
             out.append("commodity " + dd["name"])
             if dd["format"]:
                 out.append("  format " + dd["format"])
-    for g in sorted(content["incl"]):
+    for g in sorted(content["incl"], reverse=bool(content.get("rev"))):
         if g == star:
             # Star: the pattern that matches a.journal and b.journal as far as they exist
             out.append("include " + ("../" if f == 4 else "") + "[ab].journal")
